@@ -11,5 +11,8 @@ var readyIDs = map[string]bool{
 	"C33": true, "C34": true, "C35": true,
 	"C18": true, "C19": true, "C20": true, "C21": true, "C25": true, "C27": true, "C58": true,
 	"C42": true, "C43": true, "C44": true, "C36": true, "C37": true, "C41": true,
-	"C23": true, "C30": true, "C32": true,
+	"C23": true, "C30": true, "C32": true, "C51": true,
+	// parts of composite properties
+	"C29wu": true, "C29we": true, "C53wu": true, "C53we": true, "C41rls": true, "C41ad": true,
+	"C01we": true, "C02we": true, "C17wti": true,
 }
